@@ -15,7 +15,8 @@
 (*             statement (arithmetic, conversions, field / index           *)
 (*             selection, phi, extraction, interface boxing, type          *)
 (*             assertion, slicing, handled builtins) -- NOT loads, stores, *)
-(*             address computations, map lookups, channel operations       *)
+(*             address computations, channel operations; a map lookup      *)
+(*             m[k] (also comma-ok) is an index selection on the map value *)
 (*   Required  {(origin, target) : the origin's value reaches the target's *)
 (*             value through Chain}, tuple-index aware: a result i of a    *)
 (*             call returning a tuple starts at the Extract #i of it       *)
@@ -42,12 +43,13 @@ Rng(s) == {s[k] : k \in 1 .. Len(s)}
 
 Unary == {"UnOp", "Convert", "MultiConvert", "ChangeType", "ChangeInterface", "SliceToArrayPointer",
           "MakeInterface", "TypeAssert",           \* arithmetic (unary), conversions, interface boxing, assertion
-          "Field", "Index", "LookupString",          \* field / index selection on a VALUE: operand 1 is the aggregate
+          "Field", "Index", "LookupString", "LookupMap", \* field / index selection on a VALUE: operand 1 is the aggregate
+                                                     \* (a map lookup m[k] selects from the map VALUE m; the key is not data)
           "Slice",                                   \* slicing: operand 1 is the sliced value
           "Builtin:len", "Builtin:real", "Builtin:imag", "Builtin:ssa:wrapnilchk", "InvokeError"}
 AllOps == {"BinOp", "Phi",                           \* arithmetic (binary), phi
            "Builtin:append", "Builtin:min", "Builtin:max", "Builtin:complex"}   \* handled builtins computing a value
-\* deliberately NOT chain kinds: Load, Recv, FieldAddr, IndexAddr, LookupMap*, Next, Range, Select, Alloc, Make*,
+\* deliberately NOT chain kinds: Load, Recv, FieldAddr, IndexAddr, Next, Range, Select, Alloc, Make*,
 \* Call (an origin of its own), Builtin:cap (documented design decision of the analysis: "taking the capacity does
 \* not propagate taint"), Builtin:copy / close / delete / clear / print / println / recover (no value computed from
 \* the operands)
@@ -62,7 +64,9 @@ PredItems(F, it, off) ==
     IN IF v = 0 \/ v > F.ni THEN {}                            \* parameter / free variable / untracked: a leaf
        ELSE LET ins == F.ins[v] IN
             IF c >= 0                                            \* component c of a tuple
-            THEN IF ins.k = "TypeAssertOk" /\ c = 0 /\ "taok" \notin off THEN {<<ins.ops[1], -1>>} ELSE {}
+            THEN IF ins.k = "TypeAssertOk" /\ c = 0 /\ "taok" \notin off THEN {<<ins.ops[1], -1>>}
+                 ELSE IF ins.k = "LookupMapOk" /\ c = 0 THEN {<<ins.ops[1], -1>>}    \* v, ok := m[k]: v is selected from m
+                 ELSE {}
             ELSE CASE ins.k \in Unary  -> {<<ins.ops[1], -1>>}
                    [] ins.k \in AllOps ->
                         IF "nary" \in off /\ ins.k \in {"Builtin:append", "Builtin:min", "Builtin:max", "Builtin:complex"}
